@@ -129,7 +129,16 @@ def normalize(raw, pinned=False):
             c["abstract"] = bool(r.get("abs"))
             c["load"] = r.get("load") if i > 0 else None
             c["poly"] = False
-    cfg = {"kind": kind, "disc": disc, "on": on, "croot": croot, "ref": bool(raw.get("ref")) and not concrete, "classes": classes, "excluded": excluded}
+    cfg = {
+        "kind": kind,
+        "disc": disc,
+        "on": on,
+        "croot": croot,
+        "ref": bool(raw.get("ref")) and not concrete,
+        "wpm": bool(raw.get("wpm")) and not concrete and n > 1,  # legacy mapper-level with_polymorphic="*" on the base
+        "classes": classes,
+        "excluded": excluded,
+    }
     return cfg
 
 
@@ -290,6 +299,8 @@ def _build(cfg) -> Built:
                     margs["polymorphic_on"] = tcol if cfg["on"] == "col" else "type"
                 for name in c["cols"]:
                     ns[name] = mapped_column(ctype(name), nullable=True)
+                if cfg["wpm"]:
+                    margs["with_polymorphic"] = "*"
                 bases = (Base,)
             else:
                 if c["table"]:
